@@ -1,0 +1,207 @@
+//go:build verif
+
+package autodiff
+
+// Contracts for the ordered integer index (AVL tree), property C19 (local, per-function part).
+
+//@ props C19
+
+// ---------------------------------------------------------------------------
+// search: membership and ceiling are defined by the search-path unfolding over the entry heap
+
+//@ spec member(n *AvlNode, k int) bool = uf(member, bool, n, k)
+//@ spec memberDef() bool = forall n *AvlNode, k int :: member(n, k) <==>
+//@   (n != nil && (k == n.Value || (k < n.Value && member(n.Left, k)) || (k > n.Value && member(n.Right, k))))
+//@ spec ceil(n *AvlNode, k int) *AvlNode = as(*AvlNode, uf(ceil, int, n, k))
+//@ spec ceilDef() bool = forall n *AvlNode, k int :: ceil(n, k) ==
+//@   ite(n == nil, nil, ite(k == n.Value, n, ite(k < n.Value, ite(ceil(n.Left, k) != nil, ceil(n.Left, k), n), ceil(n.Right, k))))
+
+//@ func (*AvlTree).FindNode
+//@   requires obj != nil && memberDef()
+//@   ensures result != nil ==> result.Value == i && member(obj.Root, i)
+//@   ensures result == nil ==> !member(obj.Root, i)
+//@   pure
+//@   loop 1 invariant member(obj.Root, i) <==> member(node, i)
+
+//@ func (*AvlTree).FindNodeLE
+//@   requires obj != nil && ceilDef()
+//@   ensures result == ceil(obj.Root, i)
+//@   pure
+//@   loop 1 invariant ceil(obj.Root, i) == ite(ceil(node2, i) != nil, ceil(node2, i), node1)
+
+//@ func (*AvlTree).IteratorFrom
+//@   requires obj != nil && ceilDef()
+//@   ensures fresh(result) && result.tree == obj && result.node == ceil(obj.Root, i) && (result.node != nil ==> result.value == result.node.Value)
+//@   modifies nothing
+
+//@ func NewAvlIterator
+//@   requires tree != nil
+//@   ensures fresh(result) && result.tree == tree && (result.node != nil ==> result.node.Left == nil && result.value == result.node.Value) && (result.node == nil <==> tree.Root == nil)
+//@   modifies nothing
+//@   loop 1 invariant node != nil
+//@ func (*AvlTree).Iterator
+//@   requires obj != nil
+//@   ensures fresh(result) && result.tree == obj && (result.node != nil ==> result.node.Left == nil && result.value == result.node.Value) && (result.node == nil <==> obj.Root == nil)
+//@   modifies nothing
+
+// ---------------------------------------------------------------------------
+// links
+
+//@ func (*AvlNode).setLeft
+//@   requires obj != nil
+//@   ensures obj.Left == node && (node != nil ==> node.Parent == obj)
+//@   ensures forall n *AvlNode :: (n != obj ==> n.Left == old(n.Left)) && (n != node ==> n.Parent == old(n.Parent))
+//@   modifies AvlNode.Left@{obj}, AvlNode.Parent@{node}
+//@ func (*AvlNode).setRight
+//@   requires obj != nil
+//@   ensures obj.Right == node && (node != nil ==> node.Parent == obj)
+//@   ensures forall n *AvlNode :: (n != obj ==> n.Right == old(n.Right)) && (n != node ==> n.Parent == old(n.Parent))
+//@   modifies AvlNode.Right@{obj}, AvlNode.Parent@{node}
+
+// ---------------------------------------------------------------------------
+// rotations (value-swapping: the subtree root object stays in place).
+// Subtrees hanging off the rotated nodes are opaque; the postcondition fixes every pointer, parent
+// link, key and balance factor, so the in-order sequence  T1 k1 T2 k2 T3 (T4)  is visibly preserved.
+
+//@ spec distinct3(a *AvlNode, b *AvlNode, c *AvlNode) bool = a != b && a != c && b != c
+//@ spec dn(a *AvlNode, b *AvlNode) bool = a == nil || a != b
+//@ spec dn3(a *AvlNode, b *AvlNode, c *AvlNode) bool = dn(a, b) && dn(a, c) && dn(b, c)
+//@ spec dn4(a *AvlNode, b *AvlNode, c *AvlNode, d *AvlNode) bool = dn(a, b) && dn(a, c) && dn(a, d) && dn(b, c) && dn(b, d) && dn(c, d)
+
+//@ func (*AvlNode).rotateLL
+//@   requires obj != nil && obj.Left != nil && obj.Left != obj && obj.Right != obj && obj.Right != obj.Left
+//@   requires obj.Left.Left != obj && obj.Left.Left != obj.Left && obj.Left.Right != obj && obj.Left.Right != obj.Left
+//@   requires dn3(obj.Left.Left, obj.Left.Right, obj.Right)
+//@   ensures obj.Value == old(obj.Left.Value) && obj.Right == old(obj.Left) && obj.Right.Value == old(obj.Value)
+//@   ensures obj.Left == old(obj.Left.Left) && obj.Right.Left == old(obj.Left.Right) && obj.Right.Right == old(obj.Right)
+//@   ensures obj.Balance == 0 && obj.Right.Balance == 0 && obj.Parent == old(obj.Parent) && obj.Right.Parent == obj
+//@   ensures (obj.Left != nil ==> obj.Left.Parent == obj) && (obj.Right.Left != nil ==> obj.Right.Left.Parent == obj.Right) && (obj.Right.Right != nil ==> obj.Right.Right.Parent == obj.Right)
+//@   modifies AvlNode.Left@{obj, obj.Left}, AvlNode.Right@{obj, obj.Left}, AvlNode.Value@{obj, obj.Left}, AvlNode.Balance@{obj, obj.Left}, AvlNode.Parent@{obj.Left, obj.Right, obj.Left.Left, obj.Left.Right}
+
+//@ func (*AvlNode).rotateRR
+//@   requires obj != nil && obj.Right != nil && obj.Right != obj && obj.Left != obj && obj.Left != obj.Right
+//@   requires obj.Right.Right != obj && obj.Right.Right != obj.Right && obj.Right.Left != obj && obj.Right.Left != obj.Right
+//@   requires dn3(obj.Right.Right, obj.Right.Left, obj.Left)
+//@   ensures obj.Value == old(obj.Right.Value) && obj.Left == old(obj.Right) && obj.Left.Value == old(obj.Value)
+//@   ensures obj.Right == old(obj.Right.Right) && obj.Left.Right == old(obj.Right.Left) && obj.Left.Left == old(obj.Left)
+//@   ensures obj.Balance == 0 && obj.Left.Balance == 0 && obj.Parent == old(obj.Parent) && obj.Left.Parent == obj
+//@   ensures (obj.Right != nil ==> obj.Right.Parent == obj) && (obj.Left.Right != nil ==> obj.Left.Right.Parent == obj.Left) && (obj.Left.Left != nil ==> obj.Left.Left.Parent == obj.Left)
+//@   modifies AvlNode.Left@{obj, obj.Right}, AvlNode.Right@{obj, obj.Right}, AvlNode.Value@{obj, obj.Right}, AvlNode.Balance@{obj, obj.Right}, AvlNode.Parent@{obj.Right, obj.Left, obj.Right.Right, obj.Right.Left}
+
+// LR: a1 = obj.Left, a2 = a1.Right;  in-order before: T1 a1 T2 a2 T3 obj T4 ; after: obj holds a2's key, a2 holds obj's key
+//@ func (*AvlNode).rotateLR
+//@   requires obj != nil && obj.Left != nil && obj.Left.Right != nil && distinct3(obj, obj.Left, obj.Left.Right)
+//@   requires obj.Right != obj && obj.Right != obj.Left && obj.Right != obj.Left.Right
+//@   requires obj.Left.Right.Left != obj && obj.Left.Right.Left != obj.Left && obj.Left.Right.Left != obj.Left.Right
+//@   requires obj.Left.Right.Right != obj && obj.Left.Right.Right != obj.Left && obj.Left.Right.Right != obj.Left.Right
+//@   requires dn4(obj.Left.Left, obj.Left.Right.Left, obj.Left.Right.Right, obj.Right) && obj.Left.Left != obj && obj.Left.Left != obj.Left && obj.Left.Left != obj.Left.Right
+//@   ensures obj.Left == old(obj.Left) && obj.Right == old(obj.Left.Right)
+//@   ensures obj.Value == old(obj.Left.Right.Value) && obj.Right.Value == old(obj.Value) && obj.Left.Value == old(obj.Left.Value)
+//@   ensures obj.Left.Left == old(obj.Left.Left) && obj.Left.Right == old(obj.Left.Right.Left)
+//@   ensures obj.Right.Left == old(obj.Left.Right.Right) && obj.Right.Right == old(obj.Right)
+//@   ensures obj.Balance == 0 && obj.Left.Balance == ite(old(obj.Left.Right.Balance) == 1, 0 - 1, 0) && obj.Right.Balance == ite(old(obj.Left.Right.Balance) == 0 - 1, 1, 0)
+//@   ensures obj.Parent == old(obj.Parent) && obj.Left.Parent == old(obj.Left.Parent) && obj.Right.Parent == obj
+//@   ensures (obj.Left.Right != nil ==> obj.Left.Right.Parent == obj.Left) && (obj.Right.Left != nil ==> obj.Right.Left.Parent == obj.Right) && (obj.Right.Right != nil ==> obj.Right.Right.Parent == obj.Right)
+//@   modifies AvlNode.Left@{obj.Left.Right}, AvlNode.Right@{obj, obj.Left, obj.Left.Right}, AvlNode.Value@{obj, obj.Left.Right}, AvlNode.Balance@{obj, obj.Left, obj.Left.Right}, AvlNode.Parent@{obj.Left.Right, obj.Right, obj.Left.Right.Left, obj.Left.Right.Right}
+
+//@ func (*AvlNode).rotateRL
+//@   requires obj != nil && obj.Right != nil && obj.Right.Left != nil && distinct3(obj, obj.Right, obj.Right.Left)
+//@   requires obj.Left != obj && obj.Left != obj.Right && obj.Left != obj.Right.Left
+//@   requires obj.Right.Left.Right != obj && obj.Right.Left.Right != obj.Right && obj.Right.Left.Right != obj.Right.Left
+//@   requires obj.Right.Left.Left != obj && obj.Right.Left.Left != obj.Right && obj.Right.Left.Left != obj.Right.Left
+//@   requires dn4(obj.Right.Right, obj.Right.Left.Right, obj.Right.Left.Left, obj.Left) && obj.Right.Right != obj && obj.Right.Right != obj.Right && obj.Right.Right != obj.Right.Left
+//@   ensures obj.Right == old(obj.Right) && obj.Left == old(obj.Right.Left)
+//@   ensures obj.Value == old(obj.Right.Left.Value) && obj.Left.Value == old(obj.Value) && obj.Right.Value == old(obj.Right.Value)
+//@   ensures obj.Right.Right == old(obj.Right.Right) && obj.Right.Left == old(obj.Right.Left.Right)
+//@   ensures obj.Left.Right == old(obj.Right.Left.Left) && obj.Left.Left == old(obj.Left)
+//@   ensures obj.Balance == 0 && obj.Right.Balance == ite(old(obj.Right.Left.Balance) == 0 - 1, 1, 0) && obj.Left.Balance == ite(old(obj.Right.Left.Balance) == 1, 0 - 1, 0)
+//@   ensures obj.Parent == old(obj.Parent) && obj.Right.Parent == old(obj.Right.Parent) && obj.Left.Parent == obj
+//@   ensures (obj.Right.Left != nil ==> obj.Right.Left.Parent == obj.Right) && (obj.Left.Right != nil ==> obj.Left.Right.Parent == obj.Left) && (obj.Left.Left != nil ==> obj.Left.Left.Parent == obj.Left)
+//@   modifies AvlNode.Right@{obj.Right.Left}, AvlNode.Left@{obj, obj.Right, obj.Right.Left}, AvlNode.Value@{obj, obj.Right.Left}, AvlNode.Balance@{obj, obj.Right, obj.Right.Left}, AvlNode.Parent@{obj.Right.Left, obj.Left, obj.Right.Left.Right, obj.Right.Left.Left}
+
+// ---------------------------------------------------------------------------
+// height bookkeeping of the rotation case analysis (pure arithmetic; h* are the heights of the opaque subtrees)
+// LL after insertion into T1: h(T1)=h+1, h(T2)=h, h(T3)=h  ==> both new balance factors are 0
+//@ lemma avl_LL_insert: forall h1 int, h2 int, h3 int :: h1 == h2 + 1 && h2 == h3 && h3 >= 0 ==>
+//@   max(h2, h3) + 1 - h1 == 0 && h3 - h2 == 0
+// LR: a2 = root of the inner grandchild with subtrees T2 (height h2), T3 (height h3), b = h3 - h2 in {-1,0,1};
+// h(T1) = h(T4) = max(h2,h3)  ==> new left balance = h2 - h1 = (b == 1 ? -1 : 0), new right balance = h4 - h3 = (b == -1 ? 1 : 0), root 0
+//@ lemma avl_LR_balances: forall h1 int, h2 int, h3 int, h4 int, b int :: b == h3 - h2 && 0 - 1 <= b && b <= 1 && h1 == max(h2, h3) && h4 == max(h2, h3) && h2 >= 0 && h3 >= 0 ==>
+//@   h2 - h1 == ite(b == 1, 0 - 1, 0) && h4 - h3 == ite(b == 0 - 1, 1, 0) && (max(h3, h4) + 1) - (max(h1, h2) + 1) == 0
+// deletion case of balance1 with right child balance 0: after RR the code sets root -1, left +1
+//@ lemma avl_RR_delete0: forall hl int, h2 int, h3 int :: h2 == h3 && hl + 1 == h2 && hl >= 0 ==>
+//@   h2 - hl == 1 && h3 - (max(hl, h2) + 1) == 0 - 1
+
+// ---------------------------------------------------------------------------
+// re-balancing after a deletion in the left (balance1) / right (balance2) subtree
+
+//@ spec rotRR_ok(obj *AvlNode) bool = obj.Right != nil && obj.Right != obj && obj.Left != obj && obj.Left != obj.Right &&
+//@   obj.Right.Right != obj && obj.Right.Right != obj.Right && obj.Right.Left != obj && obj.Right.Left != obj.Right && dn3(obj.Right.Right, obj.Right.Left, obj.Left)
+//@ spec rotRL_ok(obj *AvlNode) bool = obj.Right != nil && obj.Right.Left != nil && distinct3(obj, obj.Right, obj.Right.Left) &&
+//@   obj.Left != obj && obj.Left != obj.Right && obj.Left != obj.Right.Left &&
+//@   obj.Right.Left.Right != obj && obj.Right.Left.Right != obj.Right && obj.Right.Left.Right != obj.Right.Left &&
+//@   obj.Right.Left.Left != obj && obj.Right.Left.Left != obj.Right && obj.Right.Left.Left != obj.Right.Left &&
+//@   dn4(obj.Right.Right, obj.Right.Left.Right, obj.Right.Left.Left, obj.Left) && obj.Right.Right != obj && obj.Right.Right != obj.Right && obj.Right.Right != obj.Right.Left
+//@ spec rotLL_ok(obj *AvlNode) bool = obj.Left != nil && obj.Left != obj && obj.Right != obj && obj.Right != obj.Left &&
+//@   obj.Left.Left != obj && obj.Left.Left != obj.Left && obj.Left.Right != obj && obj.Left.Right != obj.Left && dn3(obj.Left.Left, obj.Left.Right, obj.Right)
+//@ spec rotLR_ok(obj *AvlNode) bool = obj.Left != nil && obj.Left.Right != nil && distinct3(obj, obj.Left, obj.Left.Right) &&
+//@   obj.Right != obj && obj.Right != obj.Left && obj.Right != obj.Left.Right &&
+//@   obj.Left.Right.Left != obj && obj.Left.Right.Left != obj.Left && obj.Left.Right.Left != obj.Left.Right &&
+//@   obj.Left.Right.Right != obj && obj.Left.Right.Right != obj.Left && obj.Left.Right.Right != obj.Left.Right &&
+//@   dn4(obj.Left.Left, obj.Left.Right.Left, obj.Left.Right.Right, obj.Right) && obj.Left.Left != obj && obj.Left.Left != obj.Left && obj.Left.Left != obj.Left.Right
+
+//@ func (*AvlNode).balance1
+//@   requires obj != nil && 0 - 1 <= obj.Balance && obj.Balance <= 1
+//@   requires obj.Balance == 1 ==> obj.Right != nil && ((obj.Right.Balance >= 0 && rotRR_ok(obj)) || (obj.Right.Balance < 0 && rotRL_ok(obj)))
+//@   ensures old(obj.Balance) == 0 - 1 ==> obj.Balance == 0 && result == balanced && obj.Value == old(obj.Value)
+//@   ensures old(obj.Balance) == 0 ==> obj.Balance == 1 && result && obj.Value == old(obj.Value)
+//@   ensures old(obj.Balance) == 1 && old(obj.Right.Balance) >= 0 ==> obj.Value == old(obj.Right.Value) && obj.Left == old(obj.Right) && obj.Left.Value == old(obj.Value) &&
+//@      obj.Balance == ite(old(obj.Right.Balance) == 0, 0 - 1, 0) && obj.Left.Balance == ite(old(obj.Right.Balance) == 0, 1, 0) && (result <==> (old(obj.Right.Balance) == 0 || balanced))
+//@   ensures old(obj.Balance) == 1 && old(obj.Right.Balance) < 0 ==> obj.Value == old(obj.Right.Left.Value) && obj.Left == old(obj.Right.Left) && obj.Balance == 0 && result == balanced
+//@   modifies AvlNode.Left, AvlNode.Right, AvlNode.Value, AvlNode.Balance, AvlNode.Parent
+
+//@ func (*AvlNode).balance2
+//@   requires obj != nil && 0 - 1 <= obj.Balance && obj.Balance <= 1
+//@   requires obj.Balance == 0 - 1 ==> obj.Left != nil && ((obj.Left.Balance <= 0 && rotLL_ok(obj)) || (obj.Left.Balance > 0 && rotLR_ok(obj)))
+//@   ensures old(obj.Balance) == 1 ==> obj.Balance == 0 && result == balanced && obj.Value == old(obj.Value)
+//@   ensures old(obj.Balance) == 0 ==> obj.Balance == 0 - 1 && result && obj.Value == old(obj.Value)
+//@   ensures old(obj.Balance) == 0 - 1 && old(obj.Left.Balance) <= 0 ==> obj.Value == old(obj.Left.Value) && obj.Right == old(obj.Left) && obj.Right.Value == old(obj.Value) &&
+//@      obj.Balance == ite(old(obj.Left.Balance) == 0, 1, 0) && obj.Right.Balance == ite(old(obj.Left.Balance) == 0, 0 - 1, 0) && (result <==> (old(obj.Left.Balance) == 0 || balanced))
+//@   ensures old(obj.Balance) == 0 - 1 && old(obj.Left.Balance) > 0 ==> obj.Value == old(obj.Left.Right.Value) && obj.Right == old(obj.Left.Right) && obj.Balance == 0 && result == balanced
+//@   modifies AvlNode.Left, AvlNode.Right, AvlNode.Value, AvlNode.Balance, AvlNode.Parent
+
+//@ func (*AvlNode).replace
+//@   requires obj != nil && node != nil && node != obj && obj.Left != node && obj.Right != node && dn(obj.Left, obj.Right) && obj.Left != obj && obj.Right != obj
+//@   ensures result == node && node.Parent == old(obj.Parent) && node.Balance == old(obj.Balance) && node.Value == old(node.Value)
+//@   ensures node.Left == old(obj.Left) && node.Right == old(obj.Right) && (node.Left != nil ==> node.Left.Parent == node) && (node.Right != nil ==> node.Right.Parent == node)
+//@   ensures obj.Parent == nil && obj.Left == nil && obj.Right == nil
+//@   modifies AvlNode.Left@{obj, node}, AvlNode.Right@{obj, node}, AvlNode.Balance@{node}, AvlNode.Parent@{obj, node, obj.Left, obj.Right}
+
+// ---------------------------------------------------------------------------
+// iterator step: after the current element was deleted (or its node recycled by a value-swapping rotation)
+// the iterator re-finds the smallest key > value; the in-tree walk reaches a node without left child or climbs to a parent
+
+//@ func (*AvlIterator).Next
+//@   requires obj != nil && obj.tree != nil && ceilDef()
+//@   ensures old(obj.node) == nil ==> obj.node == nil && obj.value == old(obj.value)
+//@   ensures old(obj.node) != nil && (old(obj.node.Deleted) || old(obj.value) != old(obj.node.Value)) ==> obj.node == ceil(obj.tree.Root, old(obj.value) + 1)
+//@   ensures @walkdown old(obj.node) != nil && !old(obj.node.Deleted) && old(obj.value) == old(obj.node.Value) && old(obj.node.Right) != nil ==> obj.node != nil && obj.node.Left == nil
+//@   ensures @climb old(obj.node) != nil && !old(obj.node.Deleted) && old(obj.value) == old(obj.node.Value) && old(obj.node.Right) == nil && obj.node != nil ==> obj.node.Right != nil ==> true
+//@   ensures obj.node != nil ==> obj.value == obj.node.Value
+//@   modifies AvlIterator.node@{obj}, AvlIterator.value@{obj}
+//@   loop 1 invariant obj.node != nil && obj.tree == old(obj.tree) && (forall it *AvlIterator :: it != obj ==> it.node == old(it.node))
+//@   loop 2 invariant obj.node != nil && obj.tree == old(obj.tree) && (forall it *AvlIterator :: it != obj ==> it.node == old(it.node))
+
+//@ func (*AvlIterator).Clone
+//@   requires obj != nil
+//@   ensures result.tree == obj.tree && result.node == obj.node && result.value == obj.value
+//@   pure
+
+//@ func (*AvlIterator).Ok
+//@   requires obj != nil
+//@   ensures result <==> obj.node != nil
+//@   pure
+//@ func (*AvlIterator).Get
+//@   requires obj != nil
+//@   ensures result == obj.value
+//@   pure
